@@ -16,6 +16,16 @@ CHECKS = {
             "Random + boundary-biased generation over 24 operations and laws with an exact integer oracle, exhaustive over the monomial exponent for N<=256 (quick) / 2048 (thorough) and over the basis-pair table for N<=16.",
             "Trusts the harness reference (schoolbook with 64-bit accumulation). Contents for N>16 are shape descriptors expanded from a generated seed rather than independently generated coefficients.",
             "DESIGN.md §3 C11"),
+    "C19": ("exploration", "E2+E3",
+            "exhaustive enumeration of lambda in [-5,300] + extremes, one forked process per value (abort is the rejection contract), oracle = documented table + recomputed derived fields + noise-formula margin",
+            "The input domain is a single integer; every value in [-5,300] and the 32-bit extremes are tried on several builds/back-ends, so the decision is complete on that range and every field of both sets is compared with the documented table.",
+            "Trusts spec/paramsets.json (transcribed from README/CGGI tables) and the average-case noise formulas for the margin clause.",
+            "DESIGN.md §3 C19"),
+    "C12": ("exploration", "E2+E1",
+            "exhaustive sweep of all 2^32 coefficient values per gadget layout on AVX2 and scalar builds + rapidcheck over the layout grid with guard-page buffers; oracle = unique balanced-digit recomposition relation",
+            "Exhaustive over all 32-bit values for the default layouts and a grid of others (incl. l*Bgbit=32, Bgbit=2); random/boundary generation for the remaining layouts, lane positions and the TLWE wrapper.",
+            "N restricted to multiples of the vector width (the routine is only called with the ring degree). Out-of-bounds detection for the inline assembly rests on guard pages/canaries, which see page-crossing or slack writes only.",
+            "DESIGN.md §3 C12"),
 }
 
 ALL = ["C%02d" % k for k in range(1, 21)]
